@@ -3,9 +3,9 @@ import chan_common as cc
 
 def run(tier, seed):
     return cc.run_check("C09", tier, seed,
-        mc_cfgs=(["ChanMC_c05.cfg", "BatchOpen:BatchOpen2.cfg", "BatchOpen:BatchOpen.cfg"], ["ChanMC_c05.cfg", "ChanMC_c05t.cfg", "BatchOpen:BatchOpen2.cfg", "BatchOpen:BatchOpen.cfg"]),
-        mutant_cfgs=("BatchOpen:BatchOpenMutant.cfg",),
-        mc_actions_by_module={"BatchOpen": ("FundingSigned", "Complete")},
+        mc_cfgs=(["ChanMC_c05.cfg", "BatchOpen:BatchOpen2.cfg", "BatchOpen:BatchOpen.cfg", "DisComplete:DisComplete.cfg"], ["ChanMC_c05.cfg", "ChanMC_c05t.cfg", "BatchOpen:BatchOpen2.cfg", "BatchOpen:BatchOpen.cfg", "DisComplete:DisComplete.cfg"]),
+        mutant_cfgs=("BatchOpen:BatchOpenMutant.cfg", "DisComplete:DisCompleteMutant.cfg"),
+        mc_actions_by_module={"BatchOpen": ("FundingSigned", "Complete"), "DisComplete": ("RecvRevocation", "Disconnect", "Reconnect", "Complete")},
         profiles=[("async", 2, 150), ("asyncreest", 2, 250), ("deferred", 2, 80), ("asyncopen", 2, 60), ("asyncopen", 3, 50), ("async", 3, 60)],
         thorough_profiles=[("async", 2, 2000), ("asyncreest", 2, 2500), ("deferred", 2, 1000), ("deferred", 3, 400), ("asyncopen", 2, 800), ("asyncopen", 3, 500), ("async", 3, 700)],
         families=[("blockedjump", 250), ("opendisc", 250), ("asynccross", 200), ("discomplete", 200), ("batchopen", 200)],
